@@ -16,11 +16,19 @@ import (
 type errLog struct {
 	mu   sync.Mutex
 	errs []string
+	n    int
+}
+
+func (l *errLog) count() int {
+	l.mu.Lock()
+	defer l.mu.Unlock()
+	return l.n
 }
 
 func (l *errLog) Error(msg string, err error, fields watermill.LogFields) {
 	l.mu.Lock()
 	defer l.mu.Unlock()
+	l.n++
 	if len(l.errs) < 8 {
 		l.errs = append(l.errs, fmt.Sprintf("%s: %v", msg, err))
 	}
@@ -37,7 +45,8 @@ func (l *errLog) last() []string {
 
 // runForwarder: forwarder.Publisher -> captured envelope -> real Forwarder (real Router) -> captured output.
 func runForwarder(e *vlib.Env, res *vlib.Result) {
-	const nMsgs = 24
+	const nRandom = 24
+	const nMsgs = nRandom + nEdgePerCase // the last nEdgePerCase messages walk the edge grid (fwd_edge.go)
 	id := e.ID()
 	fwdTopic := id + "-fwd-" + genStr(e.R)
 	in := &vlib.Sub{Name: id + "-in"}
@@ -82,6 +91,8 @@ func runForwarder(e *vlib.Env, res *vlib.Result) {
 	var sigParts []any
 	var samples []any
 	sent, batches, withMeta := 0, 0, 0
+	var es edgeStats
+	dressed := 0
 	// sweep slots: 0..12 for every second message (at most 26 messages), 13..25 for the destination topic of every second batch
 	sw := newSweeper(e, 26)
 	for sent < nMsgs && !res.Failed() {
@@ -90,17 +101,30 @@ func runForwarder(e *vlib.Env, res *vlib.Result) {
 		if batches%2 == 0 && batches/2 < 13 {
 			dest = sw.at(13 + batches/2)
 		}
+		if sent >= nRandom && e.R.Bool() {
+			dest = envelopeLike(e.R) // a destination topic spelled like one of the envelope's own fields
+		}
 		ft.addStr(dest)
 		specs := make([]msgSpec, k)
 		msgs := make([]*message.Message, k)
 		for i := range specs {
-			specs[i] = genSpec(e.R)
-			if no := sent + i; no%2 == 0 && no/2 < 13 {
-				applySweep(e.R, &specs[i], sw.at(no/2), e.Idx/len(c16Classes)+no/2)
+			no := sent + i
+			if no >= nRandom {
+				// edge grid: UUID empty / not, payload nil / empty / bytes, metadata nil / empty / ordinary / keys spelled like
+				// the envelope's own fields
+				specs[i] = edgeSpec(e.R, id, (e.Idx/len(c16Classes))*nEdgePerCase+no-nRandom, dest)
+			} else {
+				specs[i] = genSpec(e.R)
+				if no%2 == 0 && no/2 < 13 {
+					applySweep(e.R, &specs[i], sw.at(no/2), e.Idx/len(c16Classes)+no/2)
+				}
+				// the judgement is positional (one envelope is delivered at a time), so UUIDs need not be unique: the empty
+				// UUID ("UUID can be empty", message.Message godoc) and repeated UUIDs stay in
+				if e.R.Bool() {
+					specs[i].UUID = id + "-" + fmt.Sprint(no) + "-" + specs[i].UUID
+				}
 			}
-			if specs[i].UUID == "" || e.R.Bool() {
-				specs[i].UUID = id + "-" + fmt.Sprint(sent+i) + "-" + specs[i].UUID
-			}
+			es.add(specs[i])
 			ft.addSpec(specs[i])
 			if len(specs[i].Meta) > 0 {
 				withMeta++
@@ -140,9 +164,17 @@ func runForwarder(e *vlib.Env, res *vlib.Result) {
 			}
 			done := make(chan struct{})
 			acked := false
+			// what the broker hands to the forwarder is the carrier as the broker sees it: in half of the deliveries it has a
+			// UUID of its own and broker-side metadata (incl. keys spelled like envelope fields and like the message's own keys).
+			// None of that is part of the envelope, so none of it may show in the forwarded message.
+			carrier := envelope
+			if e.R.Bool() {
+				carrier = dressCarrier(e.R, envelope, specs[i])
+				dressed++
+			}
 			go func() {
 				defer close(done)
-				_, acked = sp.Deliver(envelope, 0)
+				_, acked = sp.Deliver(carrier, 0)
 			}()
 			oc, dump := vlib.WaitClosed(done, vlib.WD)
 			if oc == vlib.Stuck {
@@ -191,6 +223,8 @@ func runForwarder(e *vlib.Env, res *vlib.Result) {
 	res.Count("inputs", sent)
 	res.Count("forwarder_publish_calls", batches)
 	res.Count("forwarded_with_metadata", withMeta)
+	res.Count("forwarder_carrier_with_broker_uuid_and_metadata", dressed)
+	es.report(res)
 	res.Count("corpus_sweep_strings", sw.used)
 	ft.report(res)
 	res.NonTrivial = res.Failed() || (withMeta > 0 && ft.multibyte && ft.control)
